@@ -449,7 +449,7 @@ func TestVerif_C03(t *testing.T) {
 		mutKeys := mc.Pick(r, 1, 2)
 		r.Rule("chain ids {1,1337,2^63-3,2^63,2^64+1,2^255+11} x 17 signer constructions (direct constructors, LatestSigner*, MakeSigner at 8 fork points) " +
 			"x 10 transaction bodies (5 types x {minimal,rich}; typed bodies with tx chain id = signer's and = 0) x 4 keys (1, n-1, 2 hashed): SignTx, Sender, " +
-			"Hash before/after signing and with overwritten V,R,S, then the signed tx under every signer of the same and of the next chain id (one tx object, sender cache live); " +
+			"Hash before/after signing and with overwritten V,R,S, then the signed tx under every signer of the same and of the next chain id (sender cache filled under the signing signer first, and in the reverse order); " +
 			"strictness: for the direct constructors, every substitution r in {0,n,n+1,2^256-1,-1,2^256}, s in {0,n,n+1,2^256-1,n-s,n-s with flipped v}, " +
 			"v in 0..300 and scheme boundary values (negative v in a separate group), tx chain id in {0,c-1,c+1,c+2^64}; plus EIP155 signer with chain id 0/nil and SetCode authorizations; " +
 			"one case = one (signer,chain,tx,key[,mutation,evaluating signer]); distinct = distinct case tuples")
@@ -490,7 +490,15 @@ func TestVerif_C03(t *testing.T) {
 				for _, txc := range txChains {
 					for ki, key := range keys {
 						cs := c03Case{Kind: "sign", Signer: sg.name, Chain: c.String(), Tx: bname, TxChain: txc.String(), Key: ki}
+						// SignTx runs outside the case so that the cases derived from its result can be replayed on their own
 						var signed *Transaction
+						var signErr error
+						if perr := mc.Safely(func() error {
+							signed, signErr = SignTx(NewTx(f.txdata(txc)), sg.s, key)
+							return nil
+						}); perr != nil {
+							signed, signErr = nil, perr
+						}
 						r.Case(cs, func() error {
 							unsigned := NewTx(f.txdata(txc))
 							// what must be signed
@@ -499,15 +507,15 @@ func TestVerif_C03(t *testing.T) {
 								hashChain = nil
 							}
 							if !c03Supports(sg.kind, f.typ) {
-								if _, err := SignTx(unsigned, sg.s, key); !errors.Is(err, ErrTxTypeNotSupported) {
-									return fmt.Errorf("SignTx err = %v; model: ErrTxTypeNotSupported", err)
+								if !errors.Is(signErr, ErrTxTypeNotSupported) {
+									return fmt.Errorf("SignTx err = %v; model: ErrTxTypeNotSupported", signErr)
 								}
 								oc["sign_type_not_supported"]++
 								return nil
 							}
 							if f.typ != LegacyTxType && txc.Sign() != 0 && txc.Cmp(c) != 0 {
-								if _, err := SignTx(unsigned, sg.s, key); !errors.Is(err, ErrInvalidChainId) {
-									return fmt.Errorf("SignTx of a tx for chain %v err = %v; model: ErrInvalidChainId", txc, err)
+								if !errors.Is(signErr, ErrInvalidChainId) {
+									return fmt.Errorf("SignTx of a tx for chain %v err = %v; model: ErrInvalidChainId", txc, signErr)
 								}
 								oc["sign_chain_mismatch"]++
 								return nil
@@ -517,8 +525,8 @@ func TestVerif_C03(t *testing.T) {
 							if !bytes.Equal(h0[:], want) {
 								return fmt.Errorf("Hash(unsigned) = %x; reference %x", h0, want)
 							}
-							tx, err := SignTx(unsigned, sg.s, key)
-							if err != nil {
+							tx, err := signed, signErr
+							if err != nil || tx == nil {
 								return fmt.Errorf("SignTx: %v", err)
 							}
 							if h1 := sg.s.Hash(tx); h1 != h0 {
@@ -562,12 +570,11 @@ func TestVerif_C03(t *testing.T) {
 							if e := c03Check(c03Model(sg.kind, c, f, tx.ChainId(), v, rr, ss), rr, ss, got, nil); e != nil {
 								return fmt.Errorf("model self-check: %v", e)
 							}
-							signed = tx
 							oc["signed_and_recovered"]++
 							return nil
 						})
 						r.DistinctHash(mc.Hash64(fmt.Sprint(cs)))
-						if signed == nil {
+						if signed == nil || signErr != nil {
 							continue
 						}
 						v, rr, ss := signed.RawSignatureValues()
@@ -582,9 +589,23 @@ func TestVerif_C03(t *testing.T) {
 								cc.Kind, cc.Under = "cross-signer", ev.name+"@"+evc.String()
 								exp := c03Model(ev.kind, evc, f, signed.ChainId(), v, rr, ss)
 								r.Case(cc, func() error {
-									got, err := Sender(ev.s, signed)
+									// fresh object, sender cache filled under the signing signer, then asked under the other one
+									obj, _ := c03WithSig(signed, v, rr, ss, nil)
+									if first, err := Sender(sg.s, obj); err != nil || first != crypto.PubkeyToAddress(key.PublicKey) {
+										return fmt.Errorf("Sender under the signing signer = (%x, %v)", first, err)
+									}
+									got, err := Sender(ev.s, obj)
 									if e := c03Check(exp, rr, ss, got, err); e != nil {
-										return fmt.Errorf("signed under %s@%v, evaluated under %s@%v (same tx object, cache live): %v", sg.name, c, ev.name, evc, e)
+										return fmt.Errorf("signed under %s@%v (sender cached), then evaluated under %s@%v on the same tx object: %v", sg.name, c, ev.name, evc, e)
+									}
+									// and once more in the other order on a second object
+									obj2, _ := c03WithSig(signed, v, rr, ss, nil)
+									got2, err2 := Sender(ev.s, obj2)
+									if e := c03Check(exp, rr, ss, got2, err2); e != nil {
+										return fmt.Errorf("signed under %s@%v, evaluated under %s@%v (no cache): %v", sg.name, c, ev.name, evc, e)
+									}
+									if back, err := Sender(sg.s, obj2); err != nil || back != crypto.PubkeyToAddress(key.PublicKey) {
+										return fmt.Errorf("Sender under the signing signer after a call under %s@%v = (%x, %v)", ev.name, evc, back, err)
 									}
 									return nil
 								})
@@ -731,7 +752,11 @@ func TestVerif_C03(t *testing.T) {
 					continue
 				}
 				v, rr, ss := tx.RawSignatureValues()
-				for _, nv := range []*big.Int{big.NewInt(-27), big.NewInt(-28), big.NewInt(-37), big.NewInt(-38), new(big.Int).Neg(v), big.NewInt(-1)} {
+				nvs := []*big.Int{big.NewInt(-27), big.NewInt(-28), big.NewInt(-37), big.NewInt(-38), big.NewInt(-1)}
+				if v.Cmp(big.NewInt(28)) > 0 && v.Cmp(big.NewInt(38)) != 0 && v.Cmp(big.NewInt(37)) != 0 {
+					nvs = append(nvs, new(big.Int).Neg(v))
+				}
+				for _, nv := range nvs {
 					exp := c03Model(sg.kind, c, f, nil, nv, rr, ss)
 					r.Case(c03Case{Kind: "negative-v", Signer: sg.name, Chain: c.String(), Tx: "legacy/0", Key: 0, Mut: "v=" + nv.String()}, func() error {
 						fresh, _ := c03WithSig(tx, nv, rr, ss, nil)
